@@ -62,6 +62,12 @@ PROPS['C02'] = dict(level='proof', steps=[V('stream'), V('reader'), E3('c02-read
                 text='structural-stream decoding (Flate predictor 10-15 geometry and PNG reconstruction, ASCII85) and startxref discovery are proved for all inputs (Verus); the lexical and cross-reference grammar (nom) is compared with an independent reference writer over every combination of a bounded set of syntactic choices.',
                 note='the nom grammar itself is outside both verifiers: bounded stand-in; flate2 assumed')
 
+PROPS['C10'] = dict(level='other', steps=[E3('c10-renumber')],
+                title='Renumbering objects preserves the document graph',
+                technique='bounded-exhaustive executable contract: 14 page-tree templates x all id permutations x 3 id sets x starts x bookmark sets, and every reference graph over <= 3 objects with dangling ids, 5 container kinds and 4 trailer shapes, against an independent renaming-discovery oracle',
+                text='bounded stand-in: renumber_objects_with is BTreeMap/closure code over the whole Document and outside the verifiers\' subset; the postcondition of the property (consecutive numbers, max_id, a one-to-one renaming under which trailer, objects and bookmark targets are equal, dangling stays dangling, page order) is evaluated on every enumerated document.',
+                note='bounded; start = 0 and start + n > u32::MAX are recorded as known findings (outside the domain of the function)')
+
 PROPS['C11'] = dict(level='other', steps=[E3('c11-edits')],
                 title='Editing operations keep the document sound',
                 technique='bounded-exhaustive executable contracts: every call sequence of length <= 2 (thorough <= 3/4) over 38-54 editing calls on 14 start states, checked against an independent abstract model after every step',
